@@ -33,6 +33,7 @@ class G:
         self.memo = {}
         self.spell = False          # spell mode: tables / numbers / separators become atoms rendered later
         self.atoms = []
+        self.atom_vals = []
 
     # ---- literal tables: non-terminals all of whose alternatives are a single literal (or such a table)
     def table(self, name):
@@ -69,16 +70,16 @@ class G:
         for alt in nt.alts:
             s0 = alt.symbols[0]
             if s0.kind == "lit":
-                m = re.match(r'\{?\s*"((?:[^"\\\\]|\\\\.)*)"\s*\.to_owned\(\)', (alt.action or "").strip())
-                key = m.group(1) if m else "__pure__"
-                out.setdefault(key, []).append(s0.value)
+                # alternatives of one atom = the case variants of one spelling (synonyms are C06's business)
+                out.setdefault(s0.value.lower(), []).append(s0.value)
             else:
                 for k, v in self.groups(s0.value).items():
                     out.setdefault(k, []).extend(v)
         return out
 
-    def atom(self, alts):
+    def atom(self, alts, val=None):
         self.atoms.append(alts)
+        self.atom_vals.append(val)
         return "\x01%d\x02" % (len(self.atoms) - 1)
 
     def render_atoms(self, text, srng):
@@ -96,13 +97,13 @@ class G:
         v = r.choice(cands) if r.random() < 0.5 else r.randint(lo, hi)
         if self.spell:
             if v < 0:
-                return self.atom([str(v)])
+                return self.atom([str(v)], v)
             alts = [str(v), "0x%X" % v, "0X%x" % v, "0b" + bin(v)[2:], "0B" + bin(v)[2:].zfill(20), "000" + str(v), "0x000%x" % v]
             if self.spell_bits and v >= 2 ** (self.spell_bits - 1) and v < 2 ** self.spell_bits:
                 alts.append(str(v - 2 ** self.spell_bits))          # the negative decimal with the same bit pattern
             if self.spell_offsets and v in (0, 1, 3):
                 alts += [{0: "offset bv", 1: "OFFSET wv", 3: "offset arr"}[v]] * 2
-            return self.atom(alts)
+            return self.atom(alts, v)
         if v < 0:
             return str(v)
         k = r.randrange(6)
@@ -309,7 +310,8 @@ def rand_data(g, n, big=False):
             labels.append(name)
             lab = name + ":" + r.choice([" ", "", "\n"])
         if k == 0:
-            lines.append(r.choice(["set", "SET"]) + " " + g.num(0, 65535)); lab and labels.pop()
+            seg = r.choice([0xFFFF, 0xFFFF, 0xFFF0, 0xF001, 0, r.randrange(65536)])
+            lines.append(r.choice(["set", "SET"]) + " " + g.num(seg, seg)); lab and labels.pop()
             continue
         kw = r.choice(["db", "DB"]) if k < 6 else r.choice(["dw", "DW"])
         word = kw.lower() == "dw"
@@ -407,6 +409,8 @@ def errors(g, thorough, count):
     out = [base]
     for a, b in muts:
         out.append(base.replace(a, b, 1))
+    for a, n_ in [(1048575, 0), (1048575, 1), (0xFFFF0, 15), (0xFFFF0, 16), (0, 1048575), (0, 1048576)]:
+        out.append(base.replace("mov ax, 1", "print mem %d : %d" % (a, n_), 1))
     # boundary values of the constant ranges (accepted / rejected by one)
     for ins, lo, hi in [("mov al, %d", -128, 255), ("mov ax, %d", -32768, 65535), ("shl ax, %d", 0, 255), ("and al, %d", 0, 255), ("or ax, %d", 0, 65535),
                         ("int %d", 3, 3), ("mov byte [bx], %d", -128, 255), ("add word [bx,si,%d], 1", -32768, 65535), ("mov ax, word [%d]", 0, 65535)]:
@@ -472,6 +476,10 @@ def run_prog(g, with_int3=False, with_tf=False):
             body.append(r.choice(["ret", "RET"]))
         if r.random() < 0.3:
             body.insert(0, "pl%d:" % i)
+        if r.random() < 0.35:
+            # a body that ends in an unconditional transfer, with a label on the closing brace
+            body = ["pt%d:" % i, "inc dx", "cmp dx, %d" % r.choice([1, 2, 3]), r.choice(["je", "jae", "JNB"]) + " pd%d" % i,
+                    r.choice(["jmp pt%d" % i, "jmp pt%d" % i, "hlt"]), "pd%d:" % i]
         procs.append("def %s {\n%s\n}" % (name, "\n".join(body)))
         fns.append(name)
     nblocks = r.randrange(1, 6)
@@ -485,6 +493,9 @@ def run_prog(g, with_int3=False, with_tf=False):
             seq += ["mov cx, %d" % (k if k else r.choice([1, 2, 3])), "W%d:" % b] + [r.choice(SAFE_BODY) for _ in range(r.randrange(1, 3))] + [r.choice(["loop", "LOOP"]) + " W%d" % b]
         elif kind == 1 and fns:
             seq.append("call " + r.choice(fns))
+        elif kind == 1:
+            # a one-instruction delay loop (the jump targets itself)
+            seq += ["mov cx, %d" % r.choice([1, 2, 3, 5]), "S%d:" % b, r.choice(["loop", "LOOP", "loopne", "loopz"]) + " S%d" % b]
         elif kind == 2:
             tgt = r.choice(labels[b + 1:])
             seq += [r.choice(SAFE_BODY), r.choice(["jmp", "jz", "jnz", "JC", "jnbe", "jle", "js", "jpo", "jcxz"]) + " " + tgt, r.choice(SAFE_BODY)]
@@ -523,7 +534,7 @@ def cli_cases(g, group, thorough):
             if f.endswith(".s"):
                 out.append(("-", open(os.path.join(REPO, "examples", f)).read(), "abc\nhello\n"))
     elif group == "data":
-        for c in data_cases(g, thorough, n(120, 1500)):
+        for c in data_cases(g, thorough, n(400, 3000)):
             out.append(("-", c.replace("hlt\n", "print mem 0 -> 40\nhlt\n"), ""))
     elif group == "shapes":
         # every instruction alternative, executed (the printer and the interpreter are the judges)
@@ -531,6 +542,9 @@ def cli_cases(g, group, thorough):
             if re.search(r"(?i)\b(jmp|j[a-z]+|loop[a-z]*)\s+start\b", c):
                 continue          # would spin forever
             out.append(("-", c.replace("lab:\nhlt", "lab:\nprint flags\nhlt"), ""))
+        for a, n_ in [(1048575, 0), (1048575, 1), (0xFFFF0, 15), (0xFFFF0, 16), (0, 1048575), (0, 1048576), (1, 1048575), (524288, 524287), (524288, 524288)]:
+            out.append(("-", "start:\nprint mem %s : %s\nprint flags\nhlt\n" % (g.num(a, a), g.num(n_, n_)), ""))
+            out.append(("-", "start:\nprint mem %d -> %d\nhlt\n" % (min(a, 1048575 - 3), min(a, 1048575 - 3) + 2), ""))
     elif group == "prompt":
         cmds = ["n\n", "next\n", "N\n", " next \n", "print reg\n", "print flags\n", "print mem 0 -> 20\n", "print mem 5:3\n", "print mem :7\n",
                 "PRINT REG\n", "garbage\n", "\n", "print\n", "print mem 9 -> 2\n", "print mem 1048575:5\n", "n n\n", "nextt\n", "print mem 0x10 -> 0x20\n"]
@@ -634,17 +648,30 @@ def spell_pairs(g, thorough):
                 alts.append(alt)
     reps = 12 if thorough else 3
     for alt in alts:
-        for k in range(reps):
+        # every case-family of the alternative's mnemonic table once, plus `reps` random draws
+        fams = [None] * reps
+        for i, sy in enumerate(alt.symbols):
+            if sy.kind == "nt" and not sy.suffix and sy.value.startswith("quote") and g.table(sy.value) is not None:
+                fams = [(i, f) for f in sorted(g.groups(sy.value).values())] + fams
+                break
+        for fam in fams:
             g.atoms = []
+            g.atom_vals = []
             lines = []
             for _ in range(g.rng.randrange(1, 4)):
                 a = alt if _ == 0 else g.rng.choice(alts)
-                parts = [g.render_sym(s, 1) for s in a.symbols]
+                parts = []
+                for i, sy in enumerate(a.symbols):
+                    if _ == 0 and fam is not None and i == fam[0]:
+                        parts.append(g.atom(fam[1]))
+                    else:
+                        parts.append(g.render_sym(sy, 1))
                 lines.append(g.join([p for p in parts if p is not None]))
             body = PRELUDE + "start:\x04" + "\x04".join(lines) + "\x04lab:\x04hlt\x04fin:\n"
             s1 = g.render_atoms(body, random.Random(g.rng.random()))
             s2 = g.render_atoms(body, random.Random(g.rng.random()))
-            out.append((s1, s2))
+            vals = sorted(v % 256 for v in g.atom_vals if v is not None and v % 256 != 0)
+            out.append((s1, s2, vals))
     g.spell = False
     return out
 
@@ -654,10 +681,10 @@ def main():
     thorough = tier == "thorough"
     g = G(seed * 7919 + hash(group) % 1000 if False else seed * 7919 + sum(map(ord, group)))
     if group == "spell":
-        for i, (a, b) in enumerate(spell_pairs(g, thorough)):
+        for i, (a, b, vals) in enumerate(spell_pairs(g, thorough)):
             if i % nshards == shard:
                 strip = lambda t: re.sub(r";.*\n?", "\n", t)      # the driver's comment stripping (the library API gets stripped text)
-                sys.stdout.write("asm2 " + enc(strip(a)) + " " + enc(strip(b)) + "\n")
+                sys.stdout.write("asm2 " + enc(strip(a)) + " " + enc(strip(b)) + " " + ("-" if not vals else ".".join(map(str, vals))) + "\n")
         return
     if os.environ.get("VERIF_L3_KIND", "asm") == "cli":
         cases = []
